@@ -6,7 +6,8 @@
   Strings are byte lists (C strings / std::string contents).  Every function mirrors the control flow of the
   C++, including its failure returns; the scratch buffers of base58.cpp (`b58`, `b256`, sized
   `len*138/100+1` / `len*733/1000+1`) are modelled by the list of the digits in use (`length` in the C++ is
-  the length of that list), least significant digit first.
+  the length of that list), least significant digit first; `BtcdebProofs` (`base58_encode_buffer_suffices`,
+  `base58_decode_buffer_suffices`) proves that list never outgrows the buffer, so `assert(carry == 0)` cannot fail.
 -/
 import Btcdeb.Basic.Bytes
 namespace Btcdeb.Model
@@ -113,10 +114,10 @@ def decodeBase58 (str : Bytes) (maxRetLen : Nat) : Option Bytes :=
 def encodeBase58Check (hash : Bytes → Bytes) (input : Bytes) : Bytes :=
   encodeBase58 (input ++ (hash input).take 4)
 
-/-- `DecodeBase58Check(const std::string&, vchRet, max_ret)` (base58.cpp:144, :161).
-    (`max_ret_len > INT_MAX - 4 ? INT_MAX : max_ret_len + 4` — the callers pass 200.) -/
+/-- `DecodeBase58Check(const std::string&, vchRet, max_ret)` (base58.cpp:144, :161); the limit handed on is
+    `max_ret_len > INT_MAX - 4 ? INT_MAX : max_ret_len + 4` (the transforms pass INT_MAX) -/
 def decodeBase58Check (hash : Bytes → Bytes) (str : Bytes) (maxRet : Nat) : Option Bytes :=
-  match decodeBase58 str (maxRet + 4) with
+  match decodeBase58 str (if maxRet > 2147483647 - 4 then 2147483647 else maxRet + 4) with
   | none => none
   | some vch =>
     if vch.length < 4 then none
